@@ -377,36 +377,57 @@ def _run(ctx, ncases, rec):
       acc.find(f"mujoco_warp reports {len(shared)} contact(s) between geom {r['geom'][0]} ({gnames[int(gt[r['geom'][0]])]}) and a flex element/vertex attached to the geom's own (static) body "
                f"(dist {r['dist']:.4g}); MuJoCo filters such pairs and reports none (dim {dim})", "collision_flex.flex_collision", "pinned-vertex-static-geom-contact", **replay)
       gw = [r for r in gw if not c_filters(r)]
-    # (b) 2D flex triangle against a CYLINDER: both sides are checked against an independent sampled triangle-cylinder distance
-    cyl = [g for g in range(mjm.ngeom) if gt[g] == 5]
-    if dim == 2 and cyl and interp == 0:
-      V = np.asarray(mjd.flexvert_xpos)[vadr: vadr + int(mjm.flex_vertnum[0])]
-      uu, vv = np.meshgrid(np.linspace(0, 1, 48), np.linspace(0, 1, 48))
-      mk = (uu + vv) <= 1.0
-      uu, vv = uu[mk], vv[mk]
+    # (b) flex triangles against a CAPSULE or CYLINDER (collision_primitive_core.capsule_triangle / cylinder_triangle): both sides are checked against an independent sampled
+    #     triangle-geom distance (points of the triangle -> closest point of the segment / signed distance of the finite cylinder, minus the radii)
+    prim = [g for g in range(mjm.ngeom) if gt[g] in (3, 5)]
+    V = np.asarray(mjd.flexvert_xpos)[vadr: vadr + int(mjm.flex_vertnum[0])]
+    uu, vv = np.meshgrid(np.linspace(0, 1, 48), np.linspace(0, 1, 48))
+    mk = (uu + vv) <= 1.0
+    uu, vv = uu[mk], vv[mk]
 
-      def true_dist(g, e):
-        a, b, c = V[[int(v) for v in mjm.flex_elem[eda + e * 3: eda + e * 3 + 3]]]
-        pts = a[None] + uu[:, None] * (b - a)[None] + vv[:, None] * (c - a)[None]
-        loc = (pts - mjd.geom_xpos[g]) @ mjd.geom_xmat[g].reshape(3, 3)
-        dr, dz = np.hypot(loc[:, 0], loc[:, 1]) - mjm.geom_size[g][0], np.abs(loc[:, 2]) - mjm.geom_size[g][1]
+    def tri_dist(g, tri):
+      a, b, c = V[list(tri)]
+      pts = a[None] + uu[:, None] * (b - a)[None] + vv[:, None] * (c - a)[None]
+      loc = (pts - mjd.geom_xpos[g]) @ mjd.geom_xmat[g].reshape(3, 3)
+      r_, h_ = float(mjm.geom_size[g][0]), float(mjm.geom_size[g][1])
+      if gt[g] == 3:
+        z = np.clip(loc[:, 2], -h_, h_)
+        sd = np.sqrt(loc[:, 0] ** 2 + loc[:, 1] ** 2 + (loc[:, 2] - z) ** 2) - r_
+      else:
+        dr, dz = np.hypot(loc[:, 0], loc[:, 1]) - r_, np.abs(loc[:, 2]) - h_
         sd = np.where((dr <= 0) & (dz <= 0), np.maximum(dr, dz), np.hypot(np.maximum(dr, 0), np.maximum(dz, 0)))
-        return float(sd.min()) - float(mjm.flex_radius[0])
-      badw = [(r, true_dist(r["geom"][0], r["elem"][1])) for r in gw if r["geom"][0] in cyl and r["elem"][1] >= 0]
-      badw = [(r, t) for r, t in badw if abs(r["dist"] - t) > 5e-3]
-      kw_ = {(r["geom"][0], r["elem"][1]) for r in gw}
-      missc = [r for r in gc if r["geom"][0] in cyl and (r["geom"][0], r["elem"][1]) not in kw_ and r["dist"] < -3e-3 and abs(r["dist"] - true_dist(r["geom"][0], r["elem"][1])) < 3e-3]
-      if badw or missc:
-        if badw:
-          r, t = badw[0]
-          msg = f"cylinder-triangle contact (geom {r['geom'][0]}, element {r['elem'][1]}) has dist {r['dist']:.4g}; sampled true distance {t:.4g} (MuJoCo agrees with the sampled value)"
-        else:
-          r = missc[0]
-          msg = f"cylinder-triangle contact (geom {r['geom'][0]}, element {r['elem'][1]}) with true/MuJoCo dist {r['dist']:.4g} is not reported"
-        acc.find(msg + f"; {len(badw)} wrong, {len(missc)} missing", "collision_primitive_core.cylinder_triangle", "cylinder-triangle-distance-wrong", **replay)
-      acc.hit("cylinder-triangle-checked-against-sampled-distance")
-      gc = [r for r in gc if r["geom"][0] not in cyl]
-      gw = [r for r in gw if r["geom"][0] not in cyl]
+      return float(sd.min()) - float(mjm.flex_radius[0])
+
+    def prim_find(g, msg):
+      nm = "capsule" if gt[g] == 3 else "cylinder"
+      acc.find(msg, f"collision_primitive_core.{nm}_triangle", f"{nm}-triangle-distance-wrong", **replay)
+    if dim == 2 and prim and interp == 0:
+      for g in prim:
+        wd, cd = {}, {}
+        for r in gw:
+          if r["geom"][0] == g and r["elem"][1] >= 0:
+            wd[r["elem"][1]] = min(wd.get(r["elem"][1], 1e9), r["dist"])
+        for r in gc:
+          if r["geom"][0] == g and r["elem"][1] >= 0:
+            cd[r["elem"][1]] = min(cd.get(r["elem"][1], 1e9), r["dist"])
+        wrong, missing = [], []
+        for e in sorted(set(wd) | set(cd)):
+          t = tri_dist(g, [int(v) for v in mjm.flex_elem[eda + e * 3: eda + e * 3 + 3]])
+          if e in wd and abs(wd[e] - t) > 5e-3 and not (e in cd and abs(cd[e] - wd[e]) < 2e-3):
+            wrong.append((e, wd[e], t))
+          elif e not in wd and e in cd and t < -3e-3 and abs(cd[e] - t) < 3e-3:
+            missing.append((e, cd[e], t))
+        if wrong or missing:
+          if wrong:
+            e, w_, t = wrong[0]
+            msg = f"{gnames[int(gt[g])]}-triangle contact (geom {g}, element {e}) has dist {w_:.4g}; sampled true distance {t:.4g}"
+          else:
+            e, c_, t = missing[0]
+            msg = f"{gnames[int(gt[g])]}-triangle contact (geom {g}, element {e}) with sampled true distance {t:.4g} (MuJoCo {c_:.4g}) is not reported"
+          prim_find(g, msg + f"; {len(wrong)} wrong, {len(missing)} missing")
+      acc.hit("capsule/cylinder-triangle-checked-against-sampled-distance")
+      gc = [r for r in gc if r["geom"][0] not in prim]
+      gw = [r for r in gw if r["geom"][0] not in prim]
     # (c) presence and deepest penetration per (geom, flex)
     def summary(rows):
       out = {}
@@ -427,6 +448,12 @@ def _run(ctx, ncases, rec):
         # deep interpenetration of a solid element (more than a quarter of the element size): the penetration depth of tetrahedron vs geom (MuJoCo: convex-convex) and of
         # its faces vs geom (mujoco_warp) are different quantities, and a tetrahedron wholly inside the geom has no face contact at all: outside the comparable domain
         acc.hit("dim3-deep-interpenetration: not comparable")
+      elif dim == 3 and gname in ("capsule", "cylinder") and interp == 0 and (differs_ or (b is None and a is not None and a < -tol)) and \
+          abs((a if a is not None else 1e9) - (tsurf := min(tri_dist(k[0], [fc_[q] for q in range(4) if q != o]) for e in range(int(mjm.flex_elemnum[0]))
+                                                           for fc_ in [[int(v) for v in mjm.flex_elem[eda + e * 4: eda + e * 4 + 4]]] for o in range(4)))) > tol and \
+          (b is None or abs(b - tsurf) <= tol):
+        # same routines on the faces of the tetrahedra: mujoco_warp deviates from the sampled face distance while MuJoCo (if it reports the pair) agrees with it
+        prim_find(k[0], f"3D flex faces vs {gname} geom {k[0]}: deepest reported dist {a}, sampled true face distance {tsurf:.4g}, MuJoCo {b}")
       elif a is None and b is not None and b < -tol:
         acc.find(f"MuJoCo reports a {gname}-flex contact with penetration {b:.4g} (dim {dim}), mujoco_warp reports none", "collision_flex.flex_collision", f"missed-{gname}-dim{dim}", **replay)
       elif b is None and a is not None and a < -tol:
